@@ -168,13 +168,19 @@ func fetchMasterHDKeys(b db.Bucket) ([]byte, []byte, error) {
 	// First, we'll try to fetch the master private key. If this database
 	// is watch only, or the master has been neutered, then this won't be
 	// found on disk.
-	key, _ := b.Get(masterHDPrivName)
+	key, err := b.Get(masterHDPrivName)
+	if err != nil {
+		return nil, nil, err
+	}
 	if key != nil {
 		masterHDPrivEnc = make([]byte, len(key))
 		copy(masterHDPrivEnc[:], key)
 	}
 
-	key, _ = b.Get(masterHDPubName)
+	key, err = b.Get(masterHDPubName)
+	if err != nil {
+		return nil, nil, err
+	}
 	if key != nil {
 		masterHDPubEnc = make([]byte, len(key))
 		copy(masterHDPubEnc[:], key)
@@ -225,6 +231,9 @@ func fetchCryptoKeys(b db.Bucket) ([]byte, []byte, error) {
 	// Load the crypto private key parameters if they were stored.
 	var privKey []byte
 	val, err = b.Get(cryptoPrivKeyName)
+	if err != nil {
+		return nil, nil, err
+	}
 	if val != nil {
 		privKey = make([]byte, len(val))
 		copy(privKey, val)
